@@ -748,3 +748,104 @@ pub fn idx(raw: u16, len: usize) -> Option<usize> {
         Some(((raw as usize) * len) >> 16)
     }
 }
+
+// ------------------------------------------------------------------------------------------------
+// coverage-guided leg (libFuzzer through cargo-fuzz), thorough tiers only
+
+/// Runs `cargo +nightly fuzz run <target>` for `runs` executions with a fresh corpus seeded by
+/// `seeds`. A crash carries the violating case as JSON on stderr (`FUZZ-VIOLATION` / `FUZZ-CASE`),
+/// which is turned into an ordinary violation with a JSON replay (no dependence on libFuzzer).
+pub fn run_fuzz_leg(ctx: &Ctx, target: &str, engine_name: &str, fz_prop: Option<&str>, runs: u64, max_len: u32, seeds: Vec<Vec<u8>>) -> Outcome {
+    let mut out = Outcome::default();
+    let fuzz_dir = Path::new(VERIF_DIR).join("harness").join("fuzz");
+    let corpus = fuzz_dir.join("work").join(format!("corpus-{}-{}", target, ctx.prop));
+    let _ = std::fs::remove_dir_all(&corpus);
+    let _ = std::fs::create_dir_all(&corpus);
+    for (i, s) in seeds.iter().enumerate() {
+        let _ = std::fs::write(corpus.join(format!("seed-{i}")), s);
+    }
+    let artifacts = fuzz_dir.join("work").join(format!("artifacts-{}-{}", target, ctx.prop));
+    let _ = std::fs::remove_dir_all(&artifacts);
+    let _ = std::fs::create_dir_all(&artifacts);
+    let mut cmd = std::process::Command::new("cargo");
+    cmd.current_dir(&fuzz_dir)
+        .env("CARGO_NET_OFFLINE", "true")
+        .args(["+nightly", "fuzz", "run", target])
+        .arg(&corpus)
+        .arg("--")
+        .arg(format!("-runs={runs}"))
+        .arg(format!("-seed={}", (ctx.seed % 0xffff_ffff).max(1)))
+        .arg(format!("-max_len={max_len}"))
+        .arg("-len_control=0")
+        .arg(format!("-artifact_prefix={}/", artifacts.display()));
+    if let Some(p) = fz_prop {
+        cmd.env("FZ_PROP", p);
+    }
+    let started = Instant::now();
+    cmd.stdout(std::process::Stdio::null()).stderr(std::process::Stdio::piped());
+    // run the child while keeping the watchdog fed; a 40 min cap turns a runaway campaign into
+    // "budget exhausted" (inconclusive), never a violation
+    let res = (|| -> std::io::Result<std::process::Output> {
+        let mut child = cmd.spawn()?;
+        let mut stderr = child.stderr.take();
+        let reader = std::thread::spawn(move || {
+            let mut buf = Vec::new();
+            if let Some(e) = stderr.as_mut() {
+                let _ = std::io::Read::read_to_end(e, &mut buf);
+            }
+            buf
+        });
+        let status = loop {
+            if let Some(st) = child.try_wait()? {
+                break st;
+            }
+            PROGRESS.fetch_add(1, std::sync::atomic::Ordering::Relaxed);
+            if started.elapsed().as_secs() > 2400 {
+                let _ = child.kill();
+                out.budget_exhausted = true;
+            }
+            std::thread::sleep(std::time::Duration::from_millis(500));
+        };
+        let err = reader.join().unwrap_or_default();
+        Ok(std::process::Output { status, stdout: vec![], stderr: err })
+    })();
+    let mut info = serde_json::Map::new();
+    info.insert("target".into(), json!(target));
+    info.insert("requested_runs".into(), json!(runs));
+    match res {
+        Err(e) => {
+            info.insert("status".into(), json!(format!("unavailable: {e}")));
+        }
+        Ok(o) => {
+            let err = String::from_utf8_lossy(&o.stderr).to_string();
+            let done = err.lines().rev().find_map(|l| l.strip_prefix("Done ").and_then(|r| r.split_whitespace().next()).and_then(|n| n.parse::<u64>().ok()));
+            let cov = err.lines().rev().find_map(|l| l.split("cov: ").nth(1).and_then(|r| r.split_whitespace().next()).and_then(|n| n.parse::<u64>().ok()));
+            info.insert("executions".into(), json!(done));
+            info.insert("coverage_edges".into(), json!(cov));
+            info.insert("wall_s".into(), json!(started.elapsed().as_secs()));
+            if let Some(n) = done {
+                out.evaluations += n;
+            }
+            if let Some(vline) = err.lines().find(|l| l.starts_with("FUZZ-VIOLATION ")) {
+                let sig = vline.split("sig=").nth(1).and_then(|r| r.split(" msg=").next()).unwrap_or("unknown").to_string();
+                let msg = vline.split(" msg=").nth(1).unwrap_or("").to_string();
+                let case = err.lines().find_map(|l| l.strip_prefix("FUZZ-CASE ")).and_then(|j| serde_json::from_str::<Value>(j).ok()).unwrap_or(Value::Null);
+                out.violations.push((Violation { sig, msg }, case, engine_name.to_string()));
+                info.insert("status".into(), json!("violation"));
+            } else if o.status.success() {
+                info.insert("status".into(), json!("ok"));
+            } else if err.contains("could not compile") || err.contains("error: no such command") || err.contains("toolchain") && done.is_none() {
+                info.insert("status".into(), json!("unavailable: fuzz target did not build"));
+            } else if done.is_none() {
+                let tail: Vec<&str> = err.lines().rev().take(6).collect();
+                out.internal_errors.push(format!("fuzz leg {target} crashed without a decoded violation: {}", tail.join(" | ")));
+                info.insert("status".into(), json!("crash"));
+            } else {
+                info.insert("status".into(), json!("ok"));
+            }
+        }
+    }
+    out.extra.insert(format!("fuzz_{target}"), Value::Object(info));
+    out.legs.push(format!("libfuzzer:{target}"));
+    out
+}
